@@ -26,7 +26,7 @@ class C09(C.ProgramDiff):
     rule = ('random programs whose bodies use call/1..3, once/1, findall/3, = and \\= with goals in every shape: '
             'inline compound, inline atom, a variable bound at run time (directly or through a second variable), '
             'passed in through helper predicates do/1, do1/1, all/3, ap/2,3 from the query, with 0-2 extra arguments, '
-            'nested meta-calls, bound / partially bound bags, templates sharing variables with the goal. Answers '
+            'nested meta-calls, predicates that have asserted facts beside their compiled clauses, bound / partially bound bags, templates sharing variables with the goal. Answers '
             '(bindings, order, multiplicity, no exception, no binding left by findall) compared with reference R; '
             'queries in which findall collects a non-ground instance are discarded (C09 does not say whether its variables are fresh). Non-trivial = R executed a '
             'meta-call whose goal came from a variable bound at run time, or had 0 answers, or >= 2 answers (once/'
@@ -37,6 +37,7 @@ class C09(C.ProgramDiff):
     cases = {'quick': 2400, 'thorough': 40000}
     cfg = gen.with_cfg(control=frozenset(['cut', ';', 'ite', 'not']), meta=True, library=True)
     extra_clauses = HELPERS + WIDE
+    dyn_facts = True
 
     def gen_query(self, src, preds, clauses):
         k = src.n(7)
